@@ -5,7 +5,7 @@ import sqlparse
 from sqlparse import tokens as T
 
 RULE = ('scripts of k plain statements from the verification grammar x random separators (whitespace, comments in any gap, keyword casing); '
-        'each also with every opaque region body replaced; non-trivial = distinct script text with k >= 2 or containing a region with ; inside')
+        'each also with every opaque region body replaced; every region kind (incl. [bracket names]) x every printable character first/last in the body; literals after 27 prefix words; non-trivial = distinct script text with k >= 2 or containing a region with ; inside')
 ASSUMPTIONS = ['lexical bridge: grammar text lexes to the token classes the token-level theorems quantify over (sampled by S-LEX; opaque regions are C14)',
                'model of StatementSplitter tied by S-SPLIT (sampled) and S-CSL (exhaustive table of _change_splitlevel)']
 PARTIAL = ['character-level clause: region_in_one_statement / semicolon_in_region_does_not_split are theorems (all nine region kinds); replacing a region body keeps the statement partition under the explicit hypothesis that the tokens before the region agree (vacuous for a leading region; earlier rules such as AT TIME ZONE can read into a following quote)']
@@ -193,6 +193,9 @@ def region_forms():
         for e in esc:
             out.append(('v', q + 'a' + e + ';b' + q))
             out.append(('v', q + e + ';' + q))
+    for b in REGION_BODIES:                     # [bracket names]: a quoted identifier too (body: anything but brackets, non-empty)
+        if b and '[' not in b and ']' not in b:
+            out.append(('v', '[' + b + ']'))
     for tag in ['$$', '$t$', '$_t$', '$é$', '$T1$', '$body$']:
         for b in REGION_BODIES:
             if tag in b or (tag == '$$' and '$' in b and '$$' in (b + '$')) or (b + tag).find(tag) < len(b):
@@ -235,10 +238,91 @@ def region_sweep(ctx):
                 ctx.fail('plain script (region sweep): number of statements', text, observed=got, required=want)
 
 
+# --- second pass ---------------------------------------------------------------------------------------------------------------------------
+# words that may stand directly before a string literal (a lexer rule that reads the word together with the quote must know the literal's escapes)
+QUOTE_PREFIXES = ['N', 'n', 'E', 'e', 'B', 'b', 'X', 'x', 'U&', '_utf8', 'r', 'date ', 'DATE ', 'time ', 'timestamp ', 'TIMESTAMP  ', 'interval ', 'at time zone ', 'AT TIME ZONE ',
+                  'with time zone ', 'like ', 'escape ', '= ', '|| ', 'cast(', '-', 'as ']
+SQ_BODIES = [';', 'a;b', "a'';b", "'';", "a\\';b", "\\';", 'a\\\\', ';\n;', '--;', '/*;', '";', "it''s;"]
+
+
+def prefixed_quote_scripts():
+    out = []
+    for pre in QUOTE_PREFIXES:
+        for b in SQ_BODIES:
+            r = "'" + b + "'"
+            close = ')' if pre.endswith('(') else ''
+            out.append(('select x ' + pre + r + close + ' y from t; select 2', 2, pre))
+            out.append(('select 1; select f(' + pre + r + close + ', 1); select 3', 3, pre))
+    return out
+
+
+def region_char_scripts():
+    """every printable ASCII character as the FIRST and as the LAST character of a region body next to a `;` (a look-ahead / look-behind edit of an
+    opener or terminator singles out one character class: digits after `--`, letters after `#`, `!` after `/*` …), for every region kind"""
+    import string
+    chars = [c for c in string.printable if c not in '\r\n\x0b\x0c'] + ['é', '\xa0', ' ']
+    kinds = [("'", "'", "'\\"), ('"', '"', '"\\'), ('`', '`', '`\\'), ('´', '´', '´\\'), ('[', ']', '[]'), ('$$', '$$', '$'), ('$t$', '$t$', '$'), ('/*', '*/', '*/'), ('/*+', '*/', '*/'),
+             ('--', '\n', ''), ('-- ', '\n', ''), ('--+', '\n', ''), ('# ', '\n', ''), ('# +', '\n', ''), ('--', '\r\n', ''), ('# ', '\r', '')]
+    out = []
+    for op, cl, forbid in kinds:
+        comment = op[0] in '-#/'
+        for c in chars:
+            if c in forbid:
+                continue
+            for body in (c + ';', ';' + c, c + ';' + c):
+                if op in ('--', '# ') and body.startswith('+'):
+                    continue              # that is the hint opener (own kind)
+                if op == '/*' and body.startswith('+'):
+                    continue
+                r = op + body + cl
+                if comment:
+                    out.append(('select 1 ' + r + '; select 2 ' + r + ';select 3', 3))
+                else:
+                    out.append(('select ' + r + ' x from t; select f(' + r + ', 1)', 2))
+    return out
+
+
+def at_time_zone_escape(text):
+    """mechanism of the proposed KF-C05-2: AT TIME ZONE (or WITH' TIME ZONE) directly before a literal that contains a backslash-escaped quote"""
+    import re
+    return re.search(r"(AT|WITH')\s+TIME\s+ZONE\s+'[^']*\\'", text, re.I) is not None
+
+
+def second_pass_sweeps(ctx):
+    from common import load_known_findings
+    registered = any(k.get('id') == 'KF-C05-2' for k in load_known_findings())
+    pending = 0
+    for text, want, pre in prefixed_quote_scripts():
+        ctx.evaluations += 1
+        ctx.count('prefixed_quote')
+        try:
+            got = [len(sqlparse.split(text)), len(sqlparse.parse(text))]
+        except Exception as e:
+            got = 'raised ' + type(e).__name__
+        if got != [want, want]:
+            if at_time_zone_escape(text) and not registered:
+                pending += 1              # proposed finding KF-C05-2 (see seeded/redteam/C05/README.md): reported, classified once it is registered
+                continue
+            ctx.fail('plain script (literal after a prefix word): number of statements', text, observed=got, required=want)
+    if pending:
+        ctx.dist['pending-known-finding:KF-C05-2'] = pending
+        ctx.notes.append('KF-C05-2 (proposed, not registered in known_findings.json): %d witnesses — AT TIME ZONE before a literal with \\\' cuts the literal' % pending)
+    for text, want in region_char_scripts():
+        ctx.evaluations += 1
+        ctx.count('region_char')
+        try:
+            got = [len(sqlparse.split(text)), len(sqlparse.parse(text))]
+        except Exception as e:
+            got = 'raised ' + type(e).__name__
+        if got != [want, want]:
+            ctx.fail('plain script (region character sweep): number of statements', text, observed=got, required=want)
+
+
 def run(ctx):
     rng = ctx.rng
     dictionary_sweep(ctx)
     region_sweep(ctx)
+    second_pass_sweeps(ctx)
     n = ctx.n(400, 12000)
     g = grammar.Gen(rng, feat={'sqlfor': True})
     model_q = []
@@ -320,6 +404,8 @@ def semicolon_in_parens_after_end(text):
 def classify(f, kf):
     for k in kf:
         if k['id'] == 'KF-C05-1' and isinstance(f['input'], str) and semicolon_in_parens_after_end(f['input']):
+            return k['id']
+        if k['id'] == 'KF-C05-2' and isinstance(f['input'], str) and at_time_zone_escape(f['input']):
             return k['id']
     return None
 
